@@ -100,6 +100,11 @@ def realisations(kind, d):
         rule("operand $not with two arguments", "pattern:\n- push:\n  - $not:\n    - a\n    - b\n")
     elif kind == "deref_no_main_reg":
         rule("$deref without main_reg", "pattern:\n- push:\n  - $deref:\n      constant_offset: '0x8'\n")
+        rule("$deref with index and scale but no main_reg",
+             "pattern:\n- push:\n  - $deref:\n      register_multiplier: '%rax'\n      constant_multiplier: 8\n")
+        rule("$deref with everything but main_reg", "pattern:\n- push:\n  - $deref:\n      constant_offset: '0x10'\n"
+             "      register_multiplier: '%rax'\n      constant_multiplier: 8\n- call\n")
+        rule("$deref without main_reg as second operand", "pattern:\n- push\n- mov:\n  - '%rax'\n  - $deref:\n      register_multiplier: rbx\n")
     elif kind == "times_negative":
         rule("times: -1 (body)", "pattern:\n- push\n- call:\n    times: -1\n")
         rule("times min -1", "pattern:\n- push\n- call:\n    times:\n      min: -1\n      max: 2\n")
@@ -133,6 +138,21 @@ def realisations(kind, d):
             f.write("#!/bin/sh\necho 'objdump: boom' >&2\nexit 1\n")
         os.chmod(sh, os.stat(sh).st_mode | stat.S_IEXEC)
         rule("objdump exits 1", BASE, env={"PATH": e + ":/usr/bin:/bin"})
+        e2 = os.path.join(d, "shimbin2")
+        os.makedirs(e2, exist_ok=True)
+        sh2 = os.path.join(e2, "objdump")
+        with open(sh2, "w") as f:   # dies half way: part of the listing is already on stdout
+            f.write("#!/bin/sh\nprintf '\\nx.o:     file format elf64-x86-64\\n\\n   0:\\t53                   \\tpush   %%rbx\\n'\n"
+                    "echo 'objdump: internal error' >&2\nexit 1\n")
+        os.chmod(sh2, os.stat(sh2).st_mode | stat.S_IEXEC)
+        rule("objdump prints part of the listing, then exits 1", BASE, env={"PATH": e2 + ":/usr/bin:/bin"})
+        e3 = os.path.join(d, "shimbin3")
+        os.makedirs(e3, exist_ok=True)
+        sh3 = os.path.join(e3, "objdump")
+        with open(sh3, "w") as f:
+            f.write("#!/bin/sh\nkill -SEGV $$\n")
+        os.chmod(sh3, os.stat(sh3).st_mode | stat.S_IEXEC)
+        rule("objdump killed by a signal", BASE, env={"PATH": e3 + ":/usr/bin:/bin"})
     elif kind == "section_missing":
         rule("config.sections names a section the file does not have", "config:\n  sections:\n  - .nope\n" + BASE)
     else:
